@@ -117,6 +117,9 @@ CASES = [
     ("goto: the label is formatted from the goto token", "src/formatters/lua52.rs", "    let label_name = format_token_reference(ctx, goto.label_name(), shape);\n\n    Goto::new(label_name)", "    let label_name = format_token_reference(ctx, goto.goto_token(), shape);\n\n    Goto::new(label_name)", "assign", "all", "C02.goto_label_same"),
     ("parameters: the last parameter of a one-line list is dropped", "src/formatters/functions.rs", "        formatted_parameters.push(Pair::new(parameter, punctuation));", "        if punctuation.is_some() { formatted_parameters.push(Pair::new(parameter, punctuation)); }", "collapse", "default", "C02.function_parameters_loop"),
     ("parameters: `...` becomes a name", "src/formatters/functions.rs", "        Parameter::Ellipsis(token) => Parameter::Ellipsis(fmt_symbol!(ctx, token, \"...\", shape)),", "        Parameter::Ellipsis(token) => Parameter::Name(fmt_symbol!(ctx, token, \"...\", shape)),", "collapse", "default", "C02.parameter_same"),
+    ("luau: mark_contains_union forgets its mark", "src/formatters/luau.rs", "            contains_union: true,\n            ..self", "            contains_union: false,\n            ..self", "luau", "all", "C02.luau_context_marks"),
+    ("harmless: mark_contains_union also sets the table indexer mark (more parentheses are kept, none is lost)", "src/formatters/luau.rs", "            contains_union: true,\n            ..self", "            contains_union: true,\n            within_table_indexer: true,\n            ..self", "luau", "all", "ok"),
+    ("harmless: every type starts out in a context that has the variadic mark", "src/formatters/luau.rs", "            within_optional: false,\n            within_variadic: false,", "            within_optional: false,\n            within_variadic: true,", "luau", "all", "ok"),
     # a predicate moved into a new helper next to the function: the helper is inlined (gen.InlineHelper) and verified as part of the caller
     ("helper: the sugar decision moved into a helper that forgets the Input exception", FU, [FA_DOC, FA_STR, FA_TAB], [HELPER_BAD + FA_DOC, FA_STR_H, FA_TAB_H], "args", "default", "C11.input_keeps_form"),
     ("harmless: the sugar decision moved into a helper (with a binding and an early return)", FU, [FA_DOC, FA_STR, FA_TAB], [HELPER_OK + FA_DOC, FA_STR_H, FA_TAB_H], "args", "default", "ok"),
